@@ -173,5 +173,13 @@ func init() {
 	register("C14", "", ruleMemoKeyIn("in the caching planner", "planner.(*CachedPlanner).Plan"))
 	register("C17", "", ruleMemoKeyIn("on the per-event path", scSubEvent.roots...))
 	register("C13", "", ruleArrivalOrder)
+	// round 9
+	register("C04", "", ruleRoutedFields)
+	for _, c := range []string{"C17", "C01", "C02"} {
+		register(c, "", ruleLoopAlias, ruleLastWinsMerge)
+	}
+	for _, c := range []string{"C09", "C07", "C10"} {
+		register(c, "", ruleAssertedErrorNil)
+	}
 	register("X6", "debug: R6 over whole module", ruleErr(errScope{label: "all", pkgs: []string{"pebbles", "common", "executor", "format", "gqlerrors", "introspection", "merger", "planner", "queryer", "requests"}}))
 }
